@@ -22,7 +22,7 @@ func (a strAddr) Network() string { return "tcp" }
 func (a strAddr) String() string  { return string(a) }
 
 type recDB struct {
-	mode  int // 1 hit, 2 miss, 3 error, 4 error together with a partially filled answer
+	mode  int // 1 hit, 2 miss, 3 error, 4 error together with a partially filled answer, 5 no country but an ASN
 	calls int
 }
 
@@ -33,6 +33,8 @@ func (d *recDB) GetIPInfo(ip net.IP) (ipinfo.IPInfo, error) {
 		return ipinfo.IPInfo{CountryCode: "US", ASN: ipinfo.ASN{Number: 64500, Organization: "ExampleNet"}}, nil
 	case 2:
 		return ipinfo.IPInfo{}, nil
+	case 5: // only the ASN database knows the address (or only an ASN database is configured)
+		return ipinfo.IPInfo{ASN: ipinfo.ASN{Number: 64501, Organization: "AsnOnlyNet"}}, nil
 	case 4: // the country database answered, the ASN database failed (errors.Join of the two)
 		return ipinfo.IPInfo{CountryCode: "CN"}, errors.New("asn db failure")
 	default:
@@ -86,7 +88,7 @@ func c20(ctx *Ctx) {
 	shard := 0
 	labels := map[string]int{}
 	for i, ad := range addrs {
-		for mode := 0; mode < 5; mode++ {
+		for mode := 0; mode < 6; mode++ {
 			var db *recDB
 			var m ipinfo.IPInfoMap
 			if mode != 0 {
@@ -126,7 +128,7 @@ func c20(ctx *Ctx) {
 				exp = "XL"
 			case mode == 3 || mode == 4:
 				exp, expConsult = "XD", true
-			case mode == 2:
+			case mode == 2 || mode == 5:
 				exp, expConsult = "ZZ", true
 			default:
 				exp, expConsult = "US", true
